@@ -26,10 +26,11 @@ Proof. reflexivity. Qed.
 Ltac inv H := inversion H; clear H; repeat match goal with | [ E : ?x = ?y |- _ ] => is_var y; subst y end; subst.
 
 (* which state-reset a failed call amounts to *)
-Definition after_failure (fl : flavour) (c : cmd) (s : state) : state :=
+Definition after_failure (fl : flavour) (c : cmd) (o : outcome) (s : state) : state :=
   match c with
   | CInst _ => clear_one s
   | CBind _ _ | CBindAtomic _ _ => match fl with FAssembler => clear_comment s | _ => s end
+  | CEmbedConstPool _ _ _ => match fl with FAssembler => if o_ret o =? kInvalidDisplacement then clear_comment s else s | _ => s end
   | _ => s
   end.
 
@@ -40,7 +41,7 @@ Definition partial_bind (fl : flavour) (c : cmd) (o : outcome) : Prop :=
 (* ---------------------------------------------------------------- the key lemma: a failed call IS a state reset *)
 Lemma failed_step_state : forall fl a h s c s' o,
   step fl a h s c = (s', o) -> failed o = true -> ~ partial_bind fl c o ->
-  s' = after_failure fl c s.
+  s' = after_failure fl c o s.
 Proof.
   intros fl a h s c s' o H F NP.
   destruct c; cbn [step after_failure] in *.
@@ -107,10 +108,20 @@ Proof.
       destruct (0 <? unpatchable_count s p); inv H; [reflexivity | discriminate].
     + unfold bind_builder in H. destruct (nthZ (st_labels s) id) as [[[| f p] | sec off] |]; inv H; try discriminate; reflexivity.
     + unfold bind_builder in H. destruct (nthZ (st_labels s) id) as [[[| f p] | sec off] |]; inv H; try discriminate; reflexivity.
+  - (* CEmbedConstPool *)
+    destruct fl.
+    + unfold embed_const_pool_assembler in H.
+      destruct (nthZ (st_labels s) id) as [[p | sec off] |].
+      * destruct (0 <? unpatchable_count _ p); inv H; [| discriminate].
+        rewrite report_ret. reflexivity.
+      * inv H. rewrite report_ret. reflexivity.
+      * inv H. rewrite report_ret. reflexivity.
+    + unfold embed_const_pool_builder in H. destruct (nthZ (st_labels s) id) as [[[| f p] | sec off] |]; inv H; try discriminate; reflexivity.
+    + unfold embed_const_pool_builder in H. destruct (nthZ (st_labels s) id) as [[[| f p] | sec off] |]; inv H; try discriminate; reflexivity.
 Qed.
 
-Lemma persistent_after_failure : forall fl c s, persistent (after_failure fl c s) = persistent s.
-Proof. intros fl c s; destruct c; try reflexivity; destruct fl; reflexivity. Qed.
+Lemma persistent_after_failure : forall fl c o s, persistent (after_failure fl c o s) = persistent s.
+Proof. intros fl c o s; destruct c; try reflexivity; destruct fl; try reflexivity. cbn. destruct (o_ret o =? kInvalidDisplacement); reflexivity. Qed.
 
 (* ---------------------------------------------------------------- C14 theorems *)
 (* a failed call appends no bytes, creates no labels / fixups / relocations / address-table entries / nodes, does not
@@ -271,6 +282,20 @@ Proof.
     + unfold bind_builder in H. destruct (nthZ (st_labels s) id) as [[[| f p] | sec off] |]; inv H; try discriminate;
         try (apply (R kLabelAlreadyBound); [discriminate | left; reflexivity]);
         apply (R kInvalidLabel); [discriminate | left; reflexivity].
+  - (* CEmbedConstPool *)
+    destruct fl.
+    + unfold embed_const_pool_assembler in H.
+      destruct (nthZ (st_labels s) id) as [[p | sec off] |].
+      * destruct (0 <? unpatchable_count _ p); inv H; [| discriminate].
+        apply (R kInvalidDisplacement); [discriminate | left; reflexivity].
+      * inv H. apply (R kLabelAlreadyBound); [discriminate | left; reflexivity].
+      * inv H. apply (R kInvalidLabel); [discriminate | left; reflexivity].
+    + unfold embed_const_pool_builder in H. destruct (nthZ (st_labels s) id) as [[[| f p] | sec off] |]; inv H; try discriminate;
+        try (apply (R kLabelAlreadyBound); [discriminate | left; reflexivity]);
+        apply (R kInvalidLabel); [discriminate | left; reflexivity].
+    + unfold embed_const_pool_builder in H. destruct (nthZ (st_labels s) id) as [[[| f p] | sec off] |]; inv H; try discriminate;
+        try (apply (R kLabelAlreadyBound); [discriminate | left; reflexivity]);
+        apply (R kInvalidLabel); [discriminate | left; reflexivity].
 Qed.
 
 Theorem success_reports_nothing : forall fl a h s c s' o,
@@ -341,6 +366,21 @@ Proof.
       * inv H. eapply R; [| reflexivity]; discriminate.
     + unfold bind_builder in H. destruct (nthZ (st_labels s) id) as [[[| f p] | sec off] |]; inv H; try reflexivity; (eapply R; [| reflexivity]; discriminate).
     + unfold bind_builder in H. destruct (nthZ (st_labels s) id) as [[[| f p] | sec off] |]; inv H; try reflexivity; (eapply R; [| reflexivity]; discriminate).
+  - destruct fl.
+    + unfold embed_const_pool_assembler in H.
+      destruct (nthZ (st_labels s) id) as [[p | sec off] |].
+      * destruct (0 <? unpatchable_count _ p); inv H; [| reflexivity]. eapply R; [| reflexivity]; discriminate.
+      * inv H. eapply R; [| reflexivity]; discriminate.
+      * inv H. eapply R; [| reflexivity]; discriminate.
+    + unfold embed_const_pool_builder in H. destruct (nthZ (st_labels s) id) as [[[| f p] | sec off] |]; inv H; try reflexivity; (eapply R; [| reflexivity]; discriminate).
+    + unfold embed_const_pool_builder in H. destruct (nthZ (st_labels s) id) as [[[| f p] | sec off] |]; inv H; try reflexivity; (eapply R; [| reflexivity]; discriminate).
+Qed.
+
+Lemma bind_state_handler_irrelevant : forall h1 h2 s id pf,
+  fst (bind_assembler_atomic h1 s id pf) = fst (bind_assembler_atomic h2 s id pf).
+Proof.
+  intros. unfold bind_assembler_atomic. destruct (nthZ (st_labels s) id) as [[p | sec off] |]; try reflexivity.
+  destruct (0 <? unpatchable_count s p); reflexivity.
 Qed.
 
 (* the state after a call does not depend on the handler kind — in particular a throwing handler leaves exactly the
@@ -382,6 +422,12 @@ Proof.
       destruct (0 <? unpatchable_count s p); reflexivity.
     + destruct (nthZ (st_labels s) id) as [[[| f p] | sec off] |]; reflexivity.
     + destruct (nthZ (st_labels s) id) as [[[| f p] | sec off] |]; reflexivity.
+  - destruct fl; [unfold embed_const_pool_assembler | unfold embed_const_pool_builder | unfold embed_const_pool_builder].
+    + destruct (nthZ (st_labels s) id) as [[p | sec off] |]; try reflexivity.
+      destruct (0 <? unpatchable_count _ p); [reflexivity |].
+      cbn [fst]. rewrite (bind_state_handler_irrelevant h1 h2). reflexivity.
+    + destruct (nthZ (st_labels s) id) as [[[| f p] | sec off] |]; reflexivity.
+    + destruct (nthZ (st_labels s) id) as [[[| f p] | sec off] |]; reflexivity.
 Qed.
 
 (* ---------------------------------------------------------------- fresh-emitter equivalence *)
@@ -415,6 +461,9 @@ Proof.
       intros [_ [_ R]]. rewrite R in E. discriminate E.
   - rewrite (failed_step_state _ _ _ _ _ _ _ H F); [reflexivity | intros [X _]; discriminate X].
   - rewrite (failed_step_state _ _ _ _ _ _ _ H F); [reflexivity | intros [X _]; discriminate X].
+  - (* CEmbedConstPool *)
+    rewrite (failed_step_state _ _ _ _ _ _ _ H F); [| intros [_ [[i [p E]] _]]; discriminate E].
+    cbn [residual after_failure]. destruct fl; try reflexivity. destruct (o_ret o =? kInvalidDisplacement); reflexivity.
 Qed.
 
 (* the whole state (one-shot part included) after a history equals the state after the pruned history: what the
@@ -439,7 +488,8 @@ Lemma residual_ok : forall fl a h s c s' o,
   forallb (fun x => negb (failed x)) (snd (run fl a h s (residual fl c o))) = true.
 Proof.
   intros fl a h s c s' o H F PF.
-  destruct c; try reflexivity; try (cbn [residual]; destruct fl; reflexivity).
+  destruct c; try reflexivity; try (cbn [residual]; destruct fl; reflexivity);
+    try (cbn [residual]; destruct fl; try reflexivity; destruct (o_ret o =? kInvalidDisplacement); reflexivity).
   cbn [residual]. destruct fl; try reflexivity.
   destruct (o_ret o =? kInvalidDisplacement) eqn:E; [| reflexivity].
   exfalso. cbn [step] in H. unfold bind_assembler in H. cbn [patchfail_free] in PF. apply Z.leb_le in PF.
